@@ -7,9 +7,18 @@ PROP_V = "Props/Properties_C07.v"
 GEN_MODULES = ["Consts", "Sites"]
 FLOW_FILES = ['once.c']
 REPLAY_HINT = "VRT_SEED=<seed> _work/h/once_mix  (VRT_TRACE=<file>, then coq/_rp_once_replay/once_replay <file> coq/Gen/Sites.json)"
-TRUSTED_BASE = ["Model/OnceModel.v control skeleton: hand-written, validated by lock-step replay of the once-word sites (replay/once_replay.ml); "
-                "once_mu / once_cv are abstract in the model (a loser may re-read the word at any time); the sharing of internal locks between "
-                "nsync_once objects is exercised by the scenario (objects 0 and 64 of an array share a slot)"]
+PARTIAL = ["C07_no_stuck / C07_progress: from every reachable world completion is possible within rank(w) steps and some thread can always strictly decrease "
+           "the measure, under the explicit hypotheses that every once-function returns and every once_mu is obtainable when free (both shown necessary: "
+           "C07_f_must_return, C07_lock_must_be_obtainable); termination under every fair schedule (Definition C07_fair_termination_full) is not proved -- it "
+           "needs starvation-freedom of nsync_mu",
+           "nested calls of nsync_run_once from inside a once-function are not modelled (the function is two opaque steps f-begin / f-end)"]
+TRUSTED_BASE = ["Model/OnceModel.v control skeleton: hand-written, validated by lock-step replay of every once.c site plus the scenario's f-begin/f-end notes "
+                "(order CAS < f-begin < f-end < store of 2 checked on every trace; replay/once_replay.ml)",
+                "once_mu / once_cv are ABSTRACT (lock = atomic test-and-set when free, unlock, cv wait = release + a wait that the waiter's own step can always "
+                "end + re-acquire; broadcast has no effect of its own): their correctness is nsync_mu / nsync_cv's (C01, C02, C04, C05); the replayer ties them to "
+                "the trace only by (a) model lock free at every acquisition taken at the thread's next once.c site, (b) mu.c/cv.c activity present in a per-thread "
+                "segment iff the model made a lock/cv step",
+                "the map once -> once_sync slot is arbitrary in the theorems; the replay uses index mod 64 (array elements 0 and 64 share a slot)"]
 
 
 def run(tier, seed):
